@@ -85,6 +85,16 @@ structure RunIter where
   waitOk : Bool := true
 deriving Repr, DecidableEq
 
+/-- the counters of the await loop (`runAwaitHandle`) that decide when the pool itself cancels the run context -/
+structure Await where
+  /-- `ah.isStartFinished()`, i.e. `ah.startRes == nil`: the result of `startInstances` has been received -/
+  startFinished : Bool := false
+  /-- `ah.startedInstances` (−1: undefined until start finish) -/
+  started : Int := -1
+  /-- `ah.awaitedInstances` -/
+  awaited : Int := 0
+deriving Repr, DecidableEq
+
 end Pandora.Go.C12
 
 namespace Pandora.Model.C12
